@@ -71,7 +71,11 @@ type StateRW struct {
 	B       *Backend
 	// Resolve finds the jar for a request (in-process: context; socket: header).
 	Resolve func(*http.Request) *Jar
+	// NilWhenEmpty: ReadState answers (nil, nil) when the browser holds no value of this kind
+	NilWhenEmpty bool
 }
+
+type jarCarrier interface{ JarOf() *Jar }
 
 func (rw StateRW) ReadState(r *http.Request) (authboss.ClientState, error) {
 	j := rw.Resolve(r)
@@ -82,7 +86,11 @@ func (rw StateRW) ReadState(r *http.Request) (authboss.ClientState, error) {
 		rw.B.Yield()
 	}
 	if rw.Session {
-		return jarState{jar: j, session: true, snap: j.SessionCopy()}, nil
+		snap := j.SessionCopy()
+		if rw.NilWhenEmpty && len(snap) == 0 {
+			return nil, nil
+		}
+		return jarState{jar: j, session: true, snap: snap}, nil
 	}
 	return jarState{jar: j, session: false, snap: j.CookieCopy()}, nil
 }
@@ -92,7 +100,24 @@ func (rw StateRW) ReadState(r *http.Request) (authboss.ClientState, error) {
 func (rw StateRW) WriteState(w http.ResponseWriter, state authboss.ClientState, evs []authboss.ClientStateEvent) error {
 	st, ok := state.(jarState)
 	if !ok || st.jar == nil {
-		return nil
+		// no state was read for this request: the response writer knows whose response it is
+		// (authboss hands its own wrapper over: look underneath)
+		var jar *Jar
+		for cur := w; cur != nil && jar == nil; {
+			if jc, has := cur.(jarCarrier); has {
+				jar = jc.JarOf()
+				break
+			}
+			u, ok := cur.(interface{ UnderlyingResponseWriter() http.ResponseWriter })
+			if !ok {
+				break
+			}
+			cur = u.UnderlyingResponseWriter()
+		}
+		if jar == nil {
+			return nil
+		}
+		st = jarState{jar: jar, session: rw.Session}
 	}
 	if rw.B != nil && rw.B.Yield != nil {
 		rw.B.Yield()
